@@ -173,6 +173,11 @@ def check_framing(rep, fm, cli):
                     if (x.kind == "exit") or (x.kind == "return" and x.func == q and L in x.loops):
                         if fm.norm(x.guard) != FALSE:
                             rep.fail(rule, q, x.node, "%s inside the per-file loop of %s skips the closing output / changes the exit status" % (x.kind, fn), node=x.node)
+    check_all_separator(rep, fm, rule)
+
+
+def check_all_separator(rep, fm, rule):
+    ev = fm.events
     # -a: separator depends only on "a document has already been printed"
     q = PT + "extractAllPELsData"
     seps = [e for e in ev if is_stdout_print(e) and e.func == q and e.loops and e.data[0] and e.data[0][0] == Const(",")]
